@@ -14,13 +14,21 @@ func init() {
 		Decides: "(R10.1) operations are pre-processed sequentially: PreProcess is invoked only through getPreProcessor's closures, only synchronously from doPreProcessOperation <- processOperation <- the processOperations loop, never inside a job-worker closure; " +
 			"(R10.2) the operation's tree index handed to SetProcessResult/SetStates is the proposal position of the loop; (R10.3) state keys collected by traversing the sharded map are sorted before being returned and tree indices are their positions; " +
 			"(R10.4) every slice a StateValueMerger appends to in its concurrent Merge is either sorted (comparator over both elements) before the closed value is built or used only as a filter set, and no untabled merged slice exists; " +
-			"(R10.5) operation processors' fields are written only by constructors, PreProcess and Close — Process (concurrent) never writes processor state.",
+			"(R10.5) operation processors' fields are written only by constructors, PreProcess and Close — Process (concurrent) never writes processor state.; (R10.j) jobs handed to a worker read only captured variables that the submitter does not assign again (no job works on a later batch/slot than the one it was created for)",
 		NotDecided: "last-writer-wins of BaseStateValueMerger.Merge when two operations write one key with the default merger; purity of third-party operation processors; the fixed-tree hash itself (C12).",
 		Run:        runC10,
 	})
 }
 
 func runC10(c *Ctx) {
+	c.Rule("R10.j", "AsyncCapture")
+	c.AsyncCaptures(c.Need("isaac.(*DefaultProposalProcessor).processOperation"), "*.NewJob", 2)
+	c.AsyncCaptures(c.Need("isaac/block.(*DefaultStatesMerger).CloseStates"), "*.NewJob", 1)
+	c.AsyncCaptures(c.Need("isaac/block.(*DefaultStatesMerger).Close"), "*.NewJob", 1)
+	c.AsyncCaptures(c.Need("isaac/block.(*Writer).SetProcessResult"), "*.NewJob", 1)
+	c.AsyncCaptures(c.Need("isaac/block.(*Writer).SetStates"), "*.NewJob", 1)
+	c.AsyncCaptures(c.Need("isaac/block.(*Writer).statesMergerClose"), "*.NewJob", 1)
+	c.AsyncCaptures(c.Need("isaac/block.(*Writer).Manifest"), "*.NewJob", 1)
 	// R10.1 --------------------------------------------------------------------------------------
 	c.Rule("R10.1", "WhoMayCall")
 	pre := append(c.WhoCalls("(base.OperationProcessor).PreProcess"), c.WhoCalls("(base.Operation).PreProcess")...)
